@@ -314,6 +314,19 @@ func main() {
 			if recv == "barWaitGroup" {
 				wgShape(fd, consts, wgFields(f))
 			}
+			// first find out whether this function asks for the terminal size and what it calls the two results, wherever in its
+			// body it does so (a refactor may put the non-terminal branch first)
+			ast.Inspect(fd.Body, func(n ast.Node) bool {
+				if x, ok := n.(*ast.AssignStmt); ok && len(x.Rhs) == 1 && len(x.Lhs) >= 2 {
+					if call, ok := x.Rhs[0].(*ast.CallExpr); ok {
+						if se, ok := call.Fun.(*ast.SelectorExpr); ok && se.Sel.Name == "GetTermSize" {
+							termHeightVar[recv+"."+name] = text(x.Lhs[1])
+							termWidthVar[recv+"."+name] = text(x.Lhs[0])
+						}
+					}
+				}
+				return true
+			})
 			depth := 0
 			var walk func(n ast.Node) bool
 			walk = func(n ast.Node) bool {
